@@ -17,7 +17,9 @@ echo "== apply"; git apply $PATCH; A=$?; echo "rc=$A"
 echo "== demo with change"; timeout 600 /venv/bin/python $DEMO; D1=$?; echo "rc=$D1"
 echo "== full suite with change"
 timeout 3000 /venv/bin/python -m pytest -q -p no:cacheprovider --timeout=900 -n ${NJOBS:-6} tests --deselect tests/test_version.py::test_version 2>&1 | tail -8 > $LOG.suite; S=${PIPESTATUS[0]}; cat $LOG.suite; echo "rc=$S"
-if [ "$S" != 0 ]; then
+# an ERROR line (fixture / teardown failure, e.g. "test toggled MEM_GUARD value") is a suite failure and is never treated as a flake
+NERR=$(grep -c '^ERROR ' $LOG.suite)
+if [ "$S" != 0 ] && [ "$NERR" = 0 ]; then
   # hypothesis / statistical flakes: re-run up to 3 failing tests in isolation (twice); all passing => the suite counts as passing
   FAILED=$(grep '^FAILED ' $LOG.suite | awk '{print $2}' | head -4)
   NF=$(echo "$FAILED" | grep -c .)
